@@ -88,7 +88,7 @@ def contract_table(ctx, cls):
                      'str': lambda it, x=None: x.attrs['_str'] if isinstance(x, Obj) and '_str' in x.attrs else str(x)}
             for rn in ('render_func', 'render_dml_query', 'render_ddl_query'):
                 stubs[rn] = (lambda it, *a, **k: boom()) if site == 'compile' else (lambda it, *a, **k: 'COMPILED SQL')
-            it = Interp(isa, stubs, methods=methods)
+            it = Interp.for_file(ctx.src, FILE, isa, stubs)
             self_ = Obj('SqlalchemyRender', dialect=Obj('Dialect', name=dn))
             label = f'{entry}: {site or "no"} failure {kind}{eargs if site else ""} with_failback={fb} dialect={dn}'
             nrows += 1
@@ -251,11 +251,30 @@ def check_contract(ctx, cls):
         ctx.sample({'may_raise': k, 'sites': kinds[k][:4]})
 
 
+def dialect_table(ctx, tree, init):
+    """the dict literal SqlalchemyRender.__init__ looks the dialect name up in (`X[dialect_name]`, X a local or a module-level constant)"""
+    ctx.need(len(init.args.args) >= 2, 'SqlalchemyRender.__init__ takes no dialect name')
+    param = init.args.args[1].arg
+    found = []
+    for n in ast.walk(init):
+        if isinstance(n, ast.Subscript) and isinstance(n.slice, ast.Name) and n.slice.id == param and isinstance(n.value, ast.Name):
+            for scope in (init, tree):
+                for a in (ast.walk(scope) if scope is init else scope.body):
+                    if isinstance(a, (ast.Assign, ast.AnnAssign)) and isinstance(a.value, ast.Dict) and any(
+                            isinstance(t, ast.Name) and t.id == n.value.id for t in (a.targets if isinstance(a, ast.Assign) else [a.target])):
+                        found.append(a)
+                if found:
+                    break
+        elif isinstance(n, ast.Subscript) and isinstance(n.slice, ast.Name) and n.slice.id == param and isinstance(n.value, ast.Dict):
+            found.append(ast.Assign(targets=[], value=n.value, lineno=n.lineno))
+    ctx.need(len(found) == 1, 'SqlalchemyRender.__init__: the table the dialect name is looked up in was not found')
+    return found[0]
+
+
 def check_dialects(ctx, cls):
     init = function_named(cls, '__init__')
     ctx.need(init is not None, 'SqlalchemyRender.__init__ not found')
-    d = [n for n in ast.walk(init) if isinstance(n, ast.Assign) and isinstance(n.value, ast.Dict) and norm(n.targets[0]) == 'dialects']
-    ctx.need(len(d) == 1, 'SqlalchemyRender.__init__: the `dialects` table was not found')
+    d = [dialect_table(ctx, ctx.src.tree(FILE), init)]
     keys = {k.value for k in d[0].value.keys if isinstance(k, ast.Constant)}
     for name in DIALECT_NAMES:
         ctx.ob('C17.dialect-names', name, name in keys,
